@@ -179,7 +179,7 @@ pub fn gen_program(r: &mut Rng, cfg: &GenCfg) -> Vec<Op> {
     let k_app = cfg.append && r.chance(4, 10);
     for _ in 0..n {
         if cfg.misc_ops && r.chance(1, 8) {
-            let n = if r.chance(1, 20) { r.range(0, cfg.comment_max) } else { r.range(0, cfg.comment_max.min(40)) };
+            let n = gen_comment_len(r, cfg.comment_max);
             ops.push(Op::SetComment { c: Hex(gen_comment(r, n as usize)) });
         }
         let name = gen_name(r, &used, cfg.long_names);
@@ -246,10 +246,25 @@ pub fn gen_program(r: &mut Rng, cfg: &GenCfg) -> Vec<Op> {
         }
     }
     if cfg.misc_ops && r.chance(1, 6) {
-        let n = r.range(0, cfg.comment_max.min(300));
+        let n = if r.chance(1, 4) { gen_comment_len(r, cfg.comment_max) } else { r.range(0, cfg.comment_max.min(300)) };
         ops.push(Op::SetComment { c: Hex(gen_comment(r, n as usize)) });
     }
     ops
+}
+
+/// comment lengths: mostly short; when long comments are allowed, the top of the 16-bit range (where the
+/// end record leaves the last 64 KiB of the file) is drawn on purpose, not by luck
+pub fn gen_comment_len(r: &mut Rng, max: u64) -> u64 {
+    if max < 1000 {
+        return if r.chance(1, 20) { r.range(0, max) } else { r.range(0, max.min(40)) };
+    }
+    match r.below(40) {
+        0 => max,
+        1 => max - r.below(48),
+        2 => 512 * r.range(1, max / 512) - r.below(8),
+        3 => r.range(0, max),
+        _ => r.range(0, 40),
+    }
 }
 
 pub fn gen_comment(r: &mut Rng, n: usize) -> Vec<u8> {
@@ -395,6 +410,30 @@ pub fn gen_layout(r: &mut Rng, max_entries: u64, max_content: u64, with_enc: boo
         l.gap_before_cd = r.below(50) as u32;
     }
     l
+}
+
+/// The end record may sit anywhere in the last 22 + 65535 bytes of the file: long comments, long trailing
+/// garbage (only without ZIP64 records, as C03 says) and the exact limits. Kept out of `gen_layout` because
+/// scenarios that enumerate every I/O call index would pay for a 65 KiB backward search in every sub-case.
+pub fn lengthen_tail(r: &mut Rng, l: &mut Layout) {
+    let total = match r.below(8) {
+        0 => 65535,
+        1 => 65535 - r.below(48),
+        2 => r.below(2048),
+        3 => 512 * r.range(1, 127) - r.below(8),
+        _ => r.below(65536),
+    } as usize;
+    let clen = if l.force_z64_end {
+        total
+    } else {
+        match r.below(4) {
+            0 => total,
+            1 => l.comment.0.len().min(total),
+            _ => r.below(total as u64 + 1) as usize,
+        }
+    };
+    l.comment = Hex(gen_comment(r, clen));
+    l.trailing = if l.force_z64_end { 0 } else { (total - clen) as u32 };
 }
 
 /// which source entry a raw copy resolves to: by_name returns the last entry carrying that name
